@@ -74,7 +74,7 @@ func readFull(c *simnet.StreamConn, p []byte) bool {
 		k, err := c.Read(p[n:])
 		n += k
 		if err != nil {
-			return false
+			return n == len(p) // (the last octets may come together with the end of the stream)
 		}
 	}
 	return true
